@@ -185,6 +185,10 @@ func VerifHarness_C15_WriteShardArbitraryPoints() {
 		maxPts, maxFields, maxRaw = 2, 4, 9
 	}
 	n := vLen("points", 1, maxPts)
+	if n == 2 {
+		// two points (thorough): the per-point paths multiply, so each point is shorter
+		maxFields, maxRaw = 2, 4
+	}
 	var raw [][]byte
 	for i := 0; i < n; i++ {
 		if vBool("structuredPoint") {
